@@ -489,11 +489,14 @@ fn do_op(w: &Arc<World>, op: &Op) -> Res {
                 None => Res::Skipped,
             }
         }
-        Op::Iter { store, it, consume } => {
+        Op::Iter { store, it, consume, ready } => {
             let Some(s) = w.store(*store) else { return Res::Skipped };
             let mut iter = s.iter();
             drop(s);
             w.ctx.ev(Ev::ItNew { it: *it });
+            if let Some(g) = ready {
+                w.ctx.gate(*g).signal();
+            }
             let mut got = 0u32;
             loop {
                 if let Consume::TakeThenDrop(k) = consume {
@@ -635,7 +638,15 @@ pub fn run_case(scn: Arc<Scenario>, log: Arc<std::sync::Mutex<LogInner>>) {
         }
     }
     w.ctx.ev(Ev::CleanupOut);
+    // a channeled subscriber registered after its store had shut down still owns a delivery
+    // thread: detach everything that is left so that no thread outlives the case
     let subs: Vec<_> = slock(&w.subscriptions).drain().collect();
+    for (_, slot) in &subs {
+        let g = rt::lock(slot);
+        if let Some(s) = g.as_ref() {
+            s.unsubscribe();
+        }
+    }
     drop(subs);
     slock(&w.sub_objs).clear();
     let stores: Vec<_> = slock(&w.stores).drain(..).collect();
